@@ -86,7 +86,8 @@ var propertyConfigs = map[string]*propertyConfig{
 		Explain: "Per-call structure of key switching (one call, same ring degree).  rlwe.Evaluator.ApplyEvaluationKey, in place and out of place: the output is (c0 + gp0, gp1) where (gp0, gp1) is the gadget product of the input's SECOND component with the given key (NAMED uf_gp0 / uf_gp1: functions of the ring element and of the gadget ciphertext), and carries the input's flags and scale.  " +
 			"Relinearize (receiver of degree 1 or 2, or the input): (c0 + gp0, c1 + gp1) with the gadget product of the THIRD component and the relinearisation key of the key set (NAMED uf_rlk), degree 1.  " +
 			"Automorphism, in the coefficient domain and in the NTT domain: the automorphism of BOTH components of the key switch with the Galois key of the element (NAMED uf_gk) - by the element (uf_autom), respectively with the index table the evaluator's map holds for it (uf_automidx; maps with integer keys are modelled); CheckAndGetGaloisKey hands out that key.  Every one of them leaves the output at the COMMON level of input and receiver (finding F46; Element.Resize carries the number of rows).  " +
-			"Typed-AST engine: rlwe.Parameters.BaseTwoDecompositionVectorSize gives every modulus enough power-of-two digits to cover its bit length, base[k] * w >= bitlen(q_k) (finding F50; Lean lemma div_ceil).",
+			"Typed-AST engine: rlwe.Parameters.BaseTwoDecompositionVectorSize gives every modulus enough power-of-two digits to cover its bit length, base[k] * w >= bitlen(q_k) (finding F50; Lean lemma div_ceil).  " +
+			"rlwe.Parameters.PiOverflowMargin never hands slices.Max an empty list and answers -1 for level -1 (an evaluation key generated without P under parameters that have one; finding F59).",
 		Assumptions: append(append([]string{}, engineBAssumptions...), "the gadget product, the automorphism of a ring element and the key-set accessors are TRUSTED leaves that write their outputs only; what they compute is named, not interpreted (digit arithmetic: contracts of C02; automorphism tables: C01 / C11)",
 			"NOT decided: that the result decrypts to the transformed plaintext, every noise bound, switching between ring degrees, the hoisted and lazy variants, extract / repack, compressed keys"),
 		Trusted:     stdTrusted, Simple: copyAndLanes("C04"),
@@ -151,12 +152,15 @@ var propertyConfigs = map[string]*propertyConfig{
 			"The discrete logarithm: ring.ModExpPow2 (wrapping square-and-multiply, masked at the end) returns x^e mod p for every power of two p <= 2^63; rlwe.Parameters.SolveDiscreteLogGaloisElement returns kk for EVERY element g = 5^kk (mod NthRoot), kk in [0, NthRoot/4), NthRoot = 2^n, 4 <= n <= 62 " +
 			"(loop invariant kuint = (kk mod (E/x))*x with E = NthRoot/8 and x | E; one iteration is the Lean theorem dlog_step_cases, which rests on 5^(2^m) = 1 + 2^(m+2)*odd; the mask and the `|=` are the Lean theorems and_mask_dvd / or_add_pow2); that this kk is the only logarithm in range is the Lean theorem dlog_unique.  " +
 			"Advertised key lists, one of them: rlwe.GaloisElementsForTrace(params, logN) returns exactly 5^(2^i) mod NthRoot for logN <= i < LogN-1, in that order, followed for logN = 0 in the standard ring by NthRoot-1, and nothing else; it does not panic for any constructed parameter object (finding F25: it did, for the conjugate-invariant ring).  " +
-			"Last sentence of the property, one link: rlwe.Evaluator.CheckAndGetGaloisKey (abstract contract, go/ssa) leaves, on success, an index map in the evaluator the caller holds, so the automorphism that follows does not fail when the key is present.",
+			"A second list: rlwe.GaloisElementsForPack(params, logGap) returns exactly the elements Pack applies in its steps LogN-logGap .. LogN-1 - 5^(2^(i-1)) at step i > 0, NthRoot-1 at step 0 (last) - and panics only where it says it refuses (clause `panics`: logGap out of range, ring not standard) (finding F62: it advertised 5^(2^k), k < logGap).  " +
+			"Last sentence of the property, one link: rlwe.Evaluator.CheckAndGetGaloisKey (abstract contract, go/ssa) leaves, on success, an index map in the evaluator the caller holds, so the automorphism that follows does not fail when the key is present.  " +
+			"Inner sums, corner clauses on the abstract engine: the partial trace / inner function of ONE term is the input itself, in the domain the input is in (PartialTracesSum#one on parameters with P, InnerFunction#one; finding F63: a coefficient-domain input was transformed `back`); on parameters WITHOUT auxiliary modulus PartialTracesSum dereferences no nil pointer (bounded instance n = 2, clause nilsafe; finding F65); ckks.Evaluator.Average (bounded shapes) returns a ciphertext with the INPUT's scale, packing and domain flag at the common level, also into a distinct receiver (finding F61).",
 		Assumptions: []string{
 			"GenBRedConstant (big-number division) is ASSUMED to return floor(2^128/q); BRed itself is proved (C01)",
 			"the Lean file /verif/lean/PowLemmas.lean is the statement of the inductive lemma-library rules; the correspondence between a rule instance in an SMT query (uninterpreted pow, cong) and the Lean theorem of the same name (x ^ n on integers with a natural exponent, Int.ModEq) is by reading, not mechanical",
 			"NthRoot is a power of two 2^(n+2) >= 16 (precondition 5 < NthRoot for the generator to be reduced)",
-			"NOT decided: that the induced ciphertext operation rotates the slots (encoder semantics, C07), hoisted variants, InnerSum / Replicate / Trace sums and the sufficiency of the advertised key lists (loops over symbolic counts in the abstract engine)",
+			"the rotate-and-add circuits themselves (ckks InnerSum as called by Average, rlwe InnerFunction as called without P) are ASSUMED leaves that write their receiver only",
+			"NOT decided: that the induced ciphertext operation rotates the slots (encoder semantics, C07), hoisted variants, the SUMS computed by InnerSum / Replicate / Trace for more than one term, and the sufficiency of the other advertised key lists (loops over symbolic counts in the abstract engine); known and not repaired (DESIGN.md 13.37): Trace in the conjugate-invariant ring, hoisted rotations with Galois keys generated at a reduced LevelP",
 		},
 		Trusted: append(append([]string{}, stdTrusted...), "Lean 4.33.0 kernel + Mathlib v4.33.0 (inductive lemmas)"),
 		Extra: func(prog *Program, tier string) ([]*Obligation, []string) {
@@ -213,6 +217,7 @@ var propertyConfigs = map[string]*propertyConfig{
 		ID: "C02", Packages: []string{"./ring/..."}, Level: "proof",
 		Explain: "Division by the last modulus out of the NTT domain: Ring.DivFloorByLastModulus and Ring.DivRoundByLastModulus are under functional contract per RNS row: for every row i below the last and every coefficient, " +
 			"out*q_L is congruent to a_i - a_L (floored) resp. a_i - [a_L + (q_L-1)/2 mod q_L] + (q_L-1)/2 (rounded half-up) modulo q_i, with out < q_i, for every modulus below 2^62 whose rescale constant is -q_L^{-1}*2^64; " +
+			"in the NTT domain, over the NAMED output of the inverse transform: DivFloorByLastModulusNTT subtracts the CANONICAL residue of the last row (finding F56: it used the lazy transform, whose output may be q_L too large - quotient one too small), DivRoundByLastModulusNTT the residue plus floor(q_L/2), reduced; " +
 			"plus the copy contract of BasisExtender.ShallowCopy, plus the structural lane contract (lanes8) of the hand-unrolled basis-extension helpers reconstructRNS, reconstructRNSCentered and multSum: every statement touches one lane only and every statement shape occurs once per lane (their floating-point correction term is outside the arithmetic engines).  Lemma over the contracts (stated, not proved here): with X the integer represented by (a_i), a_L = X mod q_L, the row results are the residues of floor(X/q_L) resp. the rounded quotient.",
 		Assumptions: []string{
 			"the rescale constants satisfy rc*q_L = -2^64 (mod q_i) and the Montgomery/Barrett constants their defining equations (preconditions; their generation is not under contract)",
